@@ -365,6 +365,13 @@ fn parts(tier: Tier) -> Vec<PartDef> {
             move |ctx| run_values(ctx, tier, 2),
         ),
         PartDef::new(
+            "poll-interval-in-histories",
+            Cfg::new("C07/poll-interval-in-histories"),
+            json!({"driver": "the C08 history harness: every history of checks (15 classes incl. event-report answers that dictate an interval, failures with and without an answer, retries), pings (4 answers), end of wait and restarts",
+                   "history_length": format!("0..{}", tier.pick(3, 4)), "oracle": "at every commit of every history a machine rebuilt on the committed storage presents the poll interval in force at that commit; the policy is handed the reference interval", "exploration": "full product"}),
+            move |ctx| crate::props::c08::run_filtered(ctx, tier.pick(3, 4), false, &["poll interval"]),
+        ),
+        PartDef::new(
             "kind-histories",
             Cfg::new("C07/kind-histories"),
             json!({"exchanges": "update check, 3 event reports, 2 pings", "options_per_exchange": ["no header", "7", "99999", "no response", "forged + header (CUP)"], "restart": "after every exchange", "exploration": "full product"}),
